@@ -844,6 +844,27 @@ func (c *specCtx) callExpr(x *ast.CallExpr) (tv, error) {
 			return tv{a.Term, types.NewPointer(T)}, nil
 		}
 		return tv{Term{fmt.Sprintf("(ipay_I %s)", a.S), SInt}, types.NewPointer(T)}, nil
+	case "typed":
+		// typed(x, "map[string][]string"): the value x (a ghost, say) read with
+		// the Go type written in the second argument (evaluated in the scope of
+		// the function's package)
+		a, err := c.tr(args[0])
+		if err != nil {
+			return tv{}, err
+		}
+		lit, ok := args[1].(*ast.BasicLit)
+		if !ok || c.pkg == nil {
+			return tv{}, fmt.Errorf("typed needs a string literal")
+		}
+		name, _ := strconv.Unquote(lit.Value)
+		tvv, err := types.Eval(fr.enc.prog.Fset, c.pkg, token.NoPos, name)
+		if err != nil || tvv.Type == nil {
+			return tv{}, fmt.Errorf("typed: cannot evaluate type %q: %v", name, err)
+		}
+		if sortOf(tvv.Type) != a.Sort {
+			return tv{}, fmt.Errorf("typed: %q has sort %s, the value has sort %s", name, sortOf(tvv.Type), a.Sort)
+		}
+		return tv{a.Term, tvv.Type}, nil
 	case "sliceof":
 		// sliceof(x, "pkg/path.Type"): the value x (a ghost, say) read as []Type
 		a, err := c.tr(args[0])
